@@ -264,6 +264,52 @@ func runC18(rc *RunCtx) {
 			sock.Close()
 		})
 	}
+	// A bystander: a well-behaved relay that runs while the adversarial clients do
+	// their worst. "A failure while handling one connection never affects others":
+	// once it is being served (first echo received) it must run to completion,
+	// whatever happens to the others and to the listener.
+	var by struct {
+		done, served, ok bool
+		got              []string
+	}
+	{
+		gaps := []time.Duration{time.Duration(G.Draw(5)) * time.Millisecond, time.Duration(G.Draw(300)) * time.Millisecond, time.Duration(G.Draw(3)) * time.Second}
+		simrt.GoNamed("c18-bystander", func() {
+			defer func() { by.done = true }()
+			cc, err := tsrv.connect(net.IPv4(198, 18, 42, 9).To4(), 38500)
+			if err != nil {
+				return
+			}
+			k := keys[0]
+			enc := newEncoder(k)
+			enc.Lazy(addr7000)
+			rd := shadowsocks.NewReader(cc, k.EK)
+			by.ok = true
+			for i, gap := range gaps {
+				msg := fmt.Sprintf("bystander-%d", i)
+				cc.Write(enc.Chunk([]byte(msg)))
+				buf := make([]byte, len(msg))
+				n := 0
+				for n < len(buf) {
+					m, err := rd.Read(buf[n:])
+					n += m
+					if err != nil {
+						break
+					}
+				}
+				by.got = append(by.got, string(buf[:n]))
+				if string(buf[:n]) != msg {
+					by.ok = false
+					break
+				}
+				by.served = true
+				simrt.Sleep(gap)
+			}
+			cc.CloseWrite()
+			readAll(cc)
+			cc.Close()
+		})
+	}
 	// In a quarter of the runs the listeners are shut down while the clients are
 	// still active (every order of connection termination and listener shutdown).
 	earlyStop := G.Draw(4) == 0
@@ -281,7 +327,14 @@ func runC18(rc *RunCtx) {
 		simrt.Probe("shutdown_during_traffic")
 	}
 	simrt.Quiesce()
-	// ---- others are unaffected: a clean connection and datagram still work ----
+	// ---- others are unaffected: the bystander, then a clean connection and datagram ----
+	if !by.done {
+		rc.Failf("bystander-stalled", "a well-behaved relay running next to the adversarial clients never finished (echoes so far %q)%s", by.got, describeTasks(simrt.Snapshot()))
+	} else if by.served && !by.ok {
+		rc.Failf("bystander-relay-broken", "a well-behaved relay running next to the adversarial clients was being served and then broke (echoes %q)", by.got)
+	} else if by.served {
+		rc.Probe("bystander_relay_completed")
+	}
 	rc.Phase = "canary"
 	key := keys[0]
 	canaryOK := earlyStop
